@@ -237,6 +237,8 @@ def variants():
         add("empty-literal-frag@" + where, lambda s, w=where: place(s, w, D("frag", "@frag '' 'a' @discard", lits=["", "a"], acts=["discard"])))
         add("reversed-range-token@" + where, lambda s, w=where: place(s, w, D("token", "RR = [z-a]", "RR", ranges=[[122, 97]])))
         add("reversed-range-neg@" + where, lambda s, w=where: place(s, w, D("token", "RN = ~[9-0] 'x'", "RN", ranges=[[57, 48]], lits=["x"])))
+    add("empty-literal-parser@b", lambda s: mutrule(s, "b", " | '' NUM", prefs=["NUM"], aliases=[""]))
+    add("empty-literal-parser-list@a", lambda s: mutrule(s, "a", " @list(item, '')", prefs=["item"], aliases=[""]))
     add("empty-literal-macro", lambda s: place(s, "default", D("macro", "@macro EM = 'a' | ''", "EM", lits=["a", ""])))
 
     def macro_rr_used(s):
